@@ -776,6 +776,37 @@ Proof.
 Qed.
 
 (** ** _relative_rois: inclusion from the two envelope conditions *)
+(** the source region: un-aligned envelope first, aligned only when that one meets the image *)
+Definition src_region (pts : list (option (Q * Q))) (ny nx padding : Z) (align : option Z) : roi2 :=
+  let roi_0 := roi_from_points pts ny nx padding None in
+  match align with
+  | Some _ => if roi_empty roi_0 then roi_0 else roi_from_points pts ny nx padding align
+  | None => roi_0
+  end.
+
+Lemma src_region_cases pts ny nx padding align :
+  (roi_empty (roi_from_points pts ny nx padding None) = true /\
+   src_region pts ny nx padding align = roi_from_points pts ny nx padding None) \/
+  (roi_empty (roi_from_points pts ny nx padding None) = false /\
+   src_region pts ny nx padding align = roi_from_points pts ny nx padding align).
+Proof.
+  unfold src_region. destruct align as [a|]; destruct (roi_empty (roi_from_points pts ny nx padding None)) eqn:E; auto.
+Qed.
+
+Lemma relative_rois_eq back fwd ss ds n padding align :
+  relative_rois back fwd ss ds n padding align =
+  (let pts := map back (boundary_pts ((0%Z, fst ds), (0%Z, snd ds)) n) in
+   let roi_s := src_region pts (fst ss) (snd ss) padding align in
+   if roi_empty roi_s then (roi_s, ((0%Z, 0%Z), (0%Z, 0%Z)))
+   else (roi_s, roi_from_points (map fwd (boundary_pts roi_s n)) (fst ds) (snd ds) 0 None)).
+Proof. reflexivity. Qed.
+
+Lemma in_roi_nonempty r ky kx : in_roi r ky kx -> roi_empty r = false.
+Proof.
+  intros [[a1 a2] [b1 b2]]. unfold roi_empty. destruct r as [[y0 y1] [x0 x1]]. cbn [fst snd] in *.
+  apply orb_false_iff; split; apply Z.leb_gt; lia.
+Qed.
+
 Lemma relative_rois_incl back fwd ss ds n padding align ky kx dy dx :
   (0 <= fst ss)%Z -> (0 <= snd ss)%Z -> (0 <= fst ds)%Z -> (0 <= snd ds)%Z ->
   (0 <= padding)%Z -> align_ok align ->
@@ -791,13 +822,13 @@ Lemma relative_rois_incl back fwd ss ds n padding align ky kx dy dx :
 Proof.
   intros H1 H2 H3 H4 Hp Ha pts1 roi_s pts2 E1 E2 K1 K2 E3 E4 D1 D2.
   pose proof (roi_from_points_env pts1 (fst ss) (snd ss) padding align ky kx H1 H2 Hp Ha E1 E2 K1 K2) as Is.
+  pose proof (roi_from_points_env pts1 (fst ss) (snd ss) padding None ky kx H1 H2 Hp I E1 E2 K1 K2) as I0.
   fold roi_s in Is.
-  unfold relative_rois. fold pts1. fold roi_s.
-  assert (Ne : roi_empty roi_s = false).
-  { destruct Is as [[a1 a2] [b1 b2]]. unfold roi_empty.
-    destruct roi_s as [[y0 y1] [x0 x1]]. cbn [fst snd] in *.
-    apply orb_false_iff; split; apply Z.leb_gt; lia. }
-  rewrite Ne. cbn [fst snd]. split; [exact Is|].
+  rewrite relative_rois_eq. cbv zeta. fold pts1.
+  destruct (src_region_cases pts1 (fst ss) (snd ss) padding align) as [[C _] | [_ C]].
+  { rewrite (in_roi_nonempty _ _ _ I0) in C. discriminate. }
+  rewrite C. fold roi_s.
+  rewrite (in_roi_nonempty _ _ _ Is). cbn [fst snd]. split; [exact Is|].
   fold pts2.
   apply roi_from_points_env; try assumption; try lia. exact I.
 Qed.
@@ -810,9 +841,14 @@ Lemma relative_rois_within back fwd ss ds n padding align :
   (0 <= fst (fst (snd r)) <= fst ds /\ 0 <= snd (fst (snd r)) <= fst ds /\
    0 <= fst (snd (snd r)) <= snd ds /\ 0 <= snd (snd (snd r)) <= snd ds)%Z.
 Proof.
-  intros H1 H2 H3 H4. unfold relative_rois.
-  set (pts1 := map back _). set (roi_s := roi_from_points pts1 _ _ _ _).
-  pose proof (roi_from_points_within2 pts1 (fst ss) (snd ss) padding align H1 H2) as W1. fold roi_s in W1.
+  intros H1 H2 H3 H4. rewrite relative_rois_eq. cbv zeta.
+  set (pts1 := map back _).
+  assert (W1 : let rs := src_region pts1 (fst ss) (snd ss) padding align in
+               (0 <= fst (fst rs) <= fst ss /\ 0 <= snd (fst rs) <= fst ss /\
+                0 <= fst (snd rs) <= snd ss /\ 0 <= snd (snd rs) <= snd ss)%Z).
+  { destruct (src_region_cases pts1 (fst ss) (snd ss) padding align) as [[_ C] | [_ C]]; rewrite C;
+      apply roi_from_points_within2; assumption. }
+  cbv zeta in W1. set (roi_s := src_region pts1 _ _ _ _) in *.
   destruct (roi_empty roi_s); cbn [fst snd].
   - split; [exact W1 | lia].
   - split; [exact W1|]. apply roi_from_points_within2; assumption.
@@ -1508,28 +1544,30 @@ Proof.
 Qed.
 
 Lemma relative_rois_sep back fwd ss ds n padding align :
-  (0 <= fst ss)%Z -> (0 <= snd ss)%Z -> (0 <= padding)%Z -> align_ok align ->
+  (0 <= fst ss)%Z -> (0 <= snd ss)%Z -> (0 <= padding)%Z ->
   let pts := map back (boundary_pts ((0%Z, fst ds), (0%Z, snd ds)) n) in
-  axis_sep (xs_of pts) (snd ss) padding align \/ axis_sep (ys_of pts) (fst ss) padding align ->
+  axis_sep (xs_of pts) (snd ss) padding None \/ axis_sep (ys_of pts) (fst ss) padding None ->
   let r := relative_rois back fwd ss ds n padding align in
   roi_empty (fst r) = true /\ snd r = ((0, 0), (0, 0))%Z.
 Proof.
-  intros S1 S2 Hp Ha pts Hs. unfold relative_rois. fold pts.
-  rewrite (roi_from_points_sep pts (fst ss) (snd ss) padding align S1 S2 Hp Ha Hs). cbn [fst snd].
-  split; [|reflexivity]. apply roi_from_points_sep; assumption.
+  intros S1 S2 Hp pts Hs. rewrite relative_rois_eq. cbv zeta. fold pts.
+  pose proof (roi_from_points_sep pts (fst ss) (snd ss) padding None S1 S2 Hp I Hs) as E0.
+  destruct (src_region_cases pts (fst ss) (snd ss) padding align) as [[_ C] | [C _]]; [|congruence].
+  rewrite C, E0. cbn [fst snd]. split; [exact E0 | reflexivity].
 Qed.
 
+(** separated by more than the padding margin (alignment does not add to it) -> both regions empty *)
 Lemma sampled_disjoint c ss ds A F ttol stol padding align r :
   reproject_linear c ss ds A F ttol stol padding align = Ok r -> paste_ok r = false ->
-  (0 <= fst ss)%Z -> (0 <= snd ss)%Z -> (0 <= pad_default padding)%Z -> align_ok (norm_align align) ->
+  (0 <= fst ss)%Z -> (0 <= snd ss)%Z -> (0 <= pad_default padding)%Z ->
   let pts := map (aff_pt A) (boundary_pts ((0%Z, fst ds), (0%Z, snd ds)) 2) in
-  axis_sep (xs_of pts) (snd ss) (pad_default padding) (norm_align align) \/
-  axis_sep (ys_of pts) (fst ss) (pad_default padding) (norm_align align) ->
+  axis_sep (xs_of pts) (snd ss) (pad_default padding) None \/
+  axis_sep (ys_of pts) (fst ss) (pad_default padding) None ->
   roi_empty (roi_src r) = true /\ roi_dst r = ((0, 0), (0, 0))%Z.
 Proof.
-  intros Hr Hp S1 S2 Hpad Hal pts Hs.
+  intros Hr Hp S1 S2 Hpad pts Hs.
   destruct (reproject_linear_cases _ _ _ _ _ _ _ _ _ _ Hr) as (sx & sy & _ & _ & _ & _ & [[_ Hroi] | [Hp' _]]); [|congruence].
-  pose proof (relative_rois_sep (aff_pt A) (aff_pt F) ss ds 2 _ _ S1 S2 Hpad Hal Hs) as W.
+  pose proof (relative_rois_sep (aff_pt A) (aff_pt F) ss ds 2 _ (norm_align align) S1 S2 Hpad Hs) as W.
   cbv zeta in W. rewrite <- Hroi in W. exact W.
 Qed.
 
@@ -1730,15 +1768,15 @@ Qed.
 
 Lemma nonlinear_separated c back fwd scale_at ss ds padding align r :
   reproject_nonlinear c back fwd scale_at ss ds padding align = Ok r ->
-  (0 <= fst ss)%Z -> (0 <= snd ss)%Z -> (0 <= pad_default padding)%Z -> align_ok (norm_align align) ->
+  (0 <= fst ss)%Z -> (0 <= snd ss)%Z -> (0 <= pad_default padding)%Z ->
   let pts := map back (boundary_pts ((0%Z, fst ds), (0%Z, snd ds)) 5) in
-  axis_sep (xs_of pts) (snd ss) (pad_default padding) (norm_align align) \/
-  axis_sep (ys_of pts) (fst ss) (pad_default padding) (norm_align align) ->
+  axis_sep (xs_of pts) (snd ss) (pad_default padding) None \/
+  axis_sep (ys_of pts) (fst ss) (pad_default padding) None ->
   roi_empty (roi_src r) = true /\ roi_dst r = ((0, 0), (0, 0))%Z /\ read_shrink r = 1%Z /\ scale r = 0.
 Proof.
-  intros Hr S1 S2 Hpad Hal pts Hs.
+  intros Hr S1 S2 Hpad pts Hs.
   destruct (reproject_nonlinear_cases _ _ _ _ _ _ _ _ _ Hr) as (_ & Hroi & Hsc).
-  pose proof (relative_rois_sep back fwd ss ds 5 _ _ S1 S2 Hpad Hal Hs) as W.
+  pose proof (relative_rois_sep back fwd ss ds 5 _ (norm_align align) S1 S2 Hpad Hs) as W.
   cbv zeta in W. rewrite <- Hroi in W. cbn [fst snd] in W. destruct W as [W1 W2].
   split; [exact W1|]. split; [exact W2|].
   destruct Hsc as [(_ & K & Sc) | (Ne & _)]; [tauto|].
@@ -1808,7 +1846,12 @@ Proof.
   pose proof (env_has_pad _ _ jy (pad_default padding) E2 Jy) as E2'.
   pose proof (roi_from_points_env _ (fst ss) (snd ss) (pad_default padding) (norm_align align)
                 jy jx S1 S2 Hpad Hal E1' E2' Rx Ry) as Is.
-  unfold relative_rois in Hroi.
-  set (roi_s := roi_from_points _ (fst ss) (snd ss) (pad_default padding) (norm_align align)) in *.
-  destruct (roi_empty roi_s); injection Hroi as -> _; exact Is.
+  pose proof (roi_from_points_env _ (fst ss) (snd ss) (pad_default padding) None
+                jy jx S1 S2 Hpad I E1' E2' Rx Ry) as I0.
+  rewrite relative_rois_eq in Hroi. cbv zeta in Hroi.
+  destruct (src_region_cases (map (aff_pt A) (boundary_pts (0%Z, fst ds, (0%Z, snd ds)) 2))
+                             (fst ss) (snd ss) (pad_default padding) (norm_align align)) as [[C _] | [_ C]].
+  { rewrite (in_roi_nonempty _ _ _ I0) in C. discriminate. }
+  rewrite C in Hroi.
+  destruct (roi_empty _) in Hroi; injection Hroi as -> _; exact Is.
 Qed.
